@@ -712,13 +712,26 @@ class Sym:
                 out.append((s, None))
                 continue
             b, i = ts
-            self.indexed.setdefault(n.get("sp"), set()).add((len(b[1]) if b[0] == "array" else None, i))
+            self.indexed.setdefault(n.get("sp"), set()).add((len(b[1]) if b[0] == "array" else b[2] if b[0] == "repeat" else None, i))
             if b[0] == "array" and i[0] == "lit" and isinstance(i[1], int) and 0 <= i[1] < len(b[1]):
                 out.append((s, b[1][i[1]]))
             else:
                 if self.is_effect("<index>", [b, i], n, s):
                     self.add_effect(s, "index", "<index>", [b, i], n, None)
                 out.append((s, ("index", b, i)))
+        return out
+
+    def ev_repeat(self, n, st):
+        """`[v; N]`: ('repeat', v, N, site) -- a fresh array with its own identity (N from the evaluated type)"""
+        m = re.search(r"; (\d+)\]$", n.get("ty") or "")
+        out = []
+        for s, t in self.ev(n["e"], st):
+            if s.done is not None:
+                out.append((s, None))
+            elif m is None:
+                out.append((s, self.fresh("repeat")))
+            else:
+                out.append((s, ("repeat", t, int(m.group(1)), self.site(n, s))))
         return out
 
     def ev_tup(self, n, st):
@@ -1646,6 +1659,8 @@ def show(t, depth=0):
     d = depth + 1
     if k == "lit":
         return repr(t[1])
+    if k == "repeat":
+        return "[%s; %d]" % (show(t[1], d), t[2])
     if k == "param":
         return t[1]
     if k == "local":
